@@ -83,7 +83,8 @@ def oracle(case):
     S_.apply_scaffold(spec, case.get("scaffold"))
     text = lastext.render(spec)
     policy = case["policy"]
-    las = read_text(text, engine=case["engine"], null_policy=policy)
+    las = read_text(text, engine=case["engine"], null_policy=policy, mnemonic_case=case.get("mnemonic_case", "upper"))
+    out.cls("mc-" + case.get("mnemonic_case", "upper"))
     if declared != c:
         out.cls("undeclared-columns")
     out.cls("policy-" + policy, "engine-" + case["engine"], "wrapped" if case.get("wrap") else "unwrapped",
@@ -100,8 +101,9 @@ def oracle(case):
     if len(las.curves) != c or any(len(cv.data) != len(rows) for cv in las.curves):
         out.fail("shape", "expected %d curves x %d rows, got %r\n%s" % (c, len(rows), [len(cv.data) for cv in las.curves], text))
         return out
+    positional = list(las.curves)
     for j in range(c):
-        col = las.curves[j].data
+        col = positional[j].data
         for i in range(len(rows)):
             tok = rows[i][j]
             got = col[i]
@@ -173,6 +175,7 @@ def read_cases(draw):
         case["declared"] = draw(st.integers(0, c))
     from vlib import strategies as S_
     case["scaffold"] = draw(S_.scaffold())
+    case["mnemonic_case"] = draw(st.sampled_from(["upper", "upper", "lower", "preserve"]))
     return case
 
 
@@ -250,11 +253,11 @@ def oracle_write(case):
             for i, cell in enumerate(col):
                 x = fdec(cell)
                 try:
-                    got = float(back.curves[j].data[i])
+                    got = float(list(back.curves)[j].data[i])
                 except (TypeError, ValueError):
-                    out.fail("numeric-cell-not-float|write|" + engine, "cell (%d,%d)=%s came back as %r\n%s" % (i, j, cell, back.curves[j].data[i], text))
+                    out.fail("numeric-cell-not-float|write|" + engine, "cell (%d,%d)=%s came back as %r\n%s" % (i, j, cell, list(back.curves)[j].data[i], text))
                     continue
-                prints_as_null = (not math.isnan(x)) and float(fmt % x) == float(nullv)
+                prints_as_null = (not math.isnan(x)) and not math.isinf(x) and float(fmt % x) == float(nullv)
                 want_nan = j != 0 and (math.isnan(x) or prints_as_null)
                 if want_nan and not math.isnan(got):
                     out.fail("nan-lost-on-roundtrip|" + engine, "cell (%d,%d)=%s came back as %r (NULL %r)\n%s" % (i, j, cell, got, nullv, text))
@@ -287,6 +290,8 @@ def write_cases(draw):
                     col.append(fenc(nullx))
                 elif k == 3:
                     col.append(fenc(near(nullx, draw(st.sampled_from(["up", "3", "6"])))))
+                elif k == 4 and draw(st.integers(0, 3)) == 0:
+                    col.append(draw(st.sampled_from(["inf", "-inf"])))  # not NaN: must not come back as NaN
                 else:
                     col.append(fenc(draw(st.sampled_from([1.0, -2.5, 1000.125, 0.0, 7e5]))))
         cols.append(col)
